@@ -293,12 +293,12 @@ PROPS["C19"] = {
     "assumptions": ["instants are compared as (Unix seconds, nanoseconds); monotonic clock readings and zone names are not part of an instant"],
 }
 
-EMU_NOTE = "Trusted: Coq kernel; hand-written event-level model of xsensemulator/emulator.go (validated by correspondence); the frame model of C02; harness (drives a real emulator deterministically through a port that reports when the receive loop is idle). No axioms."
+EMU_NOTE = "Trusted: Coq kernel; event-level model of xsensemulator/emulator.go, proved equal (Tie/EmuAgree.v) to the statement-level translation of Receive (one loop iteration), Transmit, SetSendMode, SetOutputConguration and LastMessageIdentifier regenerated from emulator.go on every run, and validated by correspondence; the translator go/xlate (emufn.go: mutex operations are no-ops on the modelled state, the scanner results / context / port-write result are parameters); the frame model of C02; harness (drives a real emulator deterministically through a port that reports when the receive loop is idle). No axioms."
 PROPS["C16"] = {
     "level_text": "Theorems (Props/C16.v) over Model.Link - client (send / receiveUntil with the identifiers of the generated command table) and emulator receive loop (Model.Emulator.estep split into 'update state' and 'write acknowledge') as separately scheduled steps over two FIFO channels - for EVERY schedule, every command sequence of any length and every configuration of up to 512 in-range settings: each enabled step consumes exactly one of 4*|cmds| units and some step is always enabled while a command is outstanding (so every command completes, none fails); whenever the client is between commands the emulator's mode and configuration are those of exactly the commands that have returned; MarshalMessage refuses a type iff no setting has it and otherwise uses the identifier of the setting of that type; in the data phase received ++ in-flight = transmitted (order, no loss/duplication/merging), every frame validates, Transmit writes iff the last command was go-to-measurement; on the skeleton regenerated from emulator.go, no path of an iteration of Receive writes shared state after a port write; and a marshalled measurement of a configured type is decoded by the client as exactly one packet of the dispatched Go type holding the value at the configured precision (unchanged when representable). Correspondence: real client + real emulator over synchronous and buffered in-memory links, GOMAXPROCS 1..16.",
     "level_note": "Channels carry frames: byte-level fragmentation independence is C01's theorem and the client's command loop refinement is C08's; the composition with them is by statement, not by a single Coq theorem. Goroutine scheduling itself is not modelled beyond interleaving of the four step kinds; the real runs only see the schedules that happen. The decoded-value clause is C16_configured_measurement_arrives (Proofs/DataPathProofs.v): generated dispatch table and layouts for the finite part, the generic codec theorems (Flocq; four standard-library axioms of the reals) for the values.",
     "technique": "Rocq proof (invariant + measure by induction over every schedule of an interleaving model; reflective order check of a skeleton translated from the Go AST on every run) + differential correspondence of real client/emulator runs against the model's canonical schedule",
-    "tie_files": ["Tie/EmulatorScannerOk.v", "Tie/ClientScannerOk.v", "Tie/ConfAgree.v", "Tie/FixedAgree.v", "Tie/ClientAgree.v", "Tie/BytesAgree.v"],
+    "tie_files": ["Tie/EmulatorScannerOk.v", "Tie/ClientScannerOk.v", "Tie/ConfAgree.v", "Tie/FixedAgree.v", "Tie/ClientAgree.v", "Tie/BytesAgree.v", "Tie/EmuAgree.v"],
     "props_file": "Props/C16.v",
     "eval_modules": ["Run.EvalLink"],
     "imports": ["XS.Model.Link"],
@@ -327,7 +327,7 @@ PROPS["C18"] = {
     "level_text": "Theorems (Props/C18.v), by induction over every event history from any state: Transmit writes nothing and reports not-in-measurement-mode outside measurement mode, refuses a frame that is not wf_frame (C02) with the validation failure, writes a wf_frame exactly once unchanged; every event either sets the mode (go-to-measurement / send-mode switch: measuring; go-to-config / set-output-configuration: not) or leaves it, hence measuring <-> the most recent mode-affecting event is go-to-measurement or the switch; only well-formed frames ever reach the port. Correspondence: bounded-exhaustive histories over the seven event kinds plus random longer ones on a real emulator.",
     "level_note": EMU_NOTE,
     "technique": "Rocq proof (induction over event histories) over a Gallina state machine + bounded-exhaustive / random differential correspondence",
-    "tie_files": ["Tie/EmulatorScannerOk.v", "Tie/ConfAgree.v", "Tie/BytesAgree.v"],
+    "tie_files": ["Tie/EmulatorScannerOk.v", "Tie/ConfAgree.v", "Tie/BytesAgree.v", "Tie/EmuAgree.v"],
     "props_file": "Props/C18.v",
     "eval_modules": ["Run.EvalEmu"],
     "imports": ["XS.Model.Emulator"],
